@@ -16,16 +16,33 @@
    `trace cfg init h` lists the executed calls (state before, frame, outcome);
    `run cfg h = map t_out (trace cfg init h)`.
 
-   The three switches fix_i/fix_ii/fix_iii select the code as it is (false)
-   or repaired (true) for the three defects of finding F4.  On the CURRENT
-   tree completeness and absence of exceptions are refuted (three minimal
-   histories, replayed on the implementation by harness/props/c09.py); the
-   general theorem `complete_no_raise_partial` has as its only extra
-   hypothesis that no F4 selector fires, and becomes the full statement
-   `complete_no_raise_repaired` when the repairs are applied. *)
+   The three switches fix_i/fix_ii/fix_iii select the PINNED tree (false:
+   before the fixes 0429c9b / 7f6adbc / 141de51) or the repaired behaviour
+   (true) for the three defects of finding F4; TrackerX.v adds fix_cap
+   (6da44fb) and fix_iv (afd312c).  The CURRENT tree (/repo HEAD) has all five
+   repairs; the harness detects this by replaying the corpus witnesses and
+   evaluates the model with all switches true.
+
+   OPERATIVE theorems for the current tree (everything else documents a
+   historic variant and keeps the check able to report a regression):
+     c09x_outputs_subset_nodup            clause (a), every configuration
+     c09x_repaired_full_any_matcher       clauses (b), (c), (d): hypothesis =
+                                          `valid_ans`, evaluated exactly inside
+                                          Coq on every recorded call
+     c09x_repaired_full (corollary: matcher contract), ..._no_cap,
+     c09x_repaired_exactly_once           "exactly once" in one statement
+     c09x_step_conservative_any_fix, c09x_round1_carries_over
+                                          round 1's theorems about `Tracker.step`
+                                          speak about the current configuration.
+
+   On the PINNED tree completeness and absence of exceptions are refuted (three
+   minimal histories, replayed on the implementation by harness/props/c09.py);
+   the general theorem `complete_no_raise_partial` has as its only extra
+   hypothesis that no F4 selector fires, and becomes `complete_no_raise_repaired`
+   when F4 i-iii are repaired (F4iv not: hypothesis `finite_step`). *)
 From Coq Require Import List Arith Bool ZArith QArith.
 Import ListNotations.
-From SV Require Import C09.Tracker C09.Lemmas C09.TrackerX C09.LemmasX.
+From SV Require Import C09.Tracker C09.Lemmas C09.TrackerX C09.LemmasX C09.LemmasR.
 Close Scope Q_scope.
 Open Scope nat_scope.
 
@@ -176,7 +193,8 @@ Print Assumptions c09_distinct_tracks_fresh_ids.
 
 (* --- (c) completeness and (d) no exception ------------------------------- *)
 
-(* CURRENT tree (fix_i = fix_ii = fix_iii = false): refuted.  A lone animal
+(* PINNED tree (historic: fix_i = fix_ii = fix_iii = false, before 0429c9b /
+   7f6adbc / 141de51; no code implements it any more): refuted.  A lone animal
    loses its track from the second frame on (dropped by the fixed window,
    returned without track by local queues); both candidate methods. *)
 Theorem c09_completeness_refuted : forall l,
@@ -224,9 +242,12 @@ Theorem c09_complete_no_raise_fix_i_ii : forall cfg h, fix_i cfg = true -> fix_i
 Proof. exact complete_no_raise_fix_i_ii. Qed.
 Print Assumptions c09_complete_no_raise_fix_i_ii.
 
-(* REPAIRED tree (all three switches): the full statement — every call of
-   every history returns, complete.  (`finite_step` only constrains the
-   repaired Hungarian matcher's input: not every track is without candidate.) *)
+(* F4 i-iii repaired, F4iv NOT (the tree between 141de51 and afd312c; `step`'s
+   no-pair branch is the one before afd312c): every call of every history
+   returns, complete, provided the repaired Hungarian matcher never sees an
+   all-NaN matrix (`finite_step` = complement of F4iv's selector).  It speaks
+   about the CURRENT tree through `c09x_round1_carries_over` below; the statement
+   without `finite_step` is `c09x_repaired_full_any_matcher`. *)
 Theorem c09_complete_no_raise_repaired : forall cfg h, repaired cfg ->
   Forall (contract_step cfg) (trace cfg init h) ->
   Forall (finite_step cfg) (trace cfg init h) ->
@@ -244,10 +265,12 @@ Print Assumptions c09_complete_no_raise_repaired.
      F4iv   the matcher returns no pair on a non-empty matrix (every score NaN):
             update_tracks does nothing, detections dropped / without track.
    xconfig = (base config, max_tracks, fix_cap, fix_iv, four name-validity
-   flags); `x_now` = the tree as it is, `x_rep` = both proposed repairs. *)
+   flags); `x_now` = the tree before 6da44fb / afd312c (historic), `x_rep` = the
+   CURRENT tree (both repairs are in /repo). *)
 
-(* the widened model restricted to round 1's configuration space IS round 1's
-   model: every theorem above speaks about TrackerX.xrun (xplain cfg) too *)
+(* the widened model restricted to round 1's configuration space (fix_iv =
+   false: historic) IS round 1's model; for the current configuration see
+   `c09x_step_conservative_any_fix` / `c09x_round1_carries_over` below *)
 Theorem c09x_widened_model_conservative : forall cfg h,
   Forall (contract_step cfg) (trace cfg init h) ->
   xtrace (xplain cfg) init h = trace cfg init h /\ xrun (xplain cfg) h = run cfg h.
@@ -322,7 +345,10 @@ Lemma xok_def : forall X x,
 Proof. reflexivity. Qed.
 Print Assumptions xok_def.
 
-(* --- the tree as it is ---------------------------------------------------- *)
+(* --- HISTORIC tree (before 6da44fb / afd312c): every theorem of this section
+   assumes fix_iv X = false and/or fix_cap X = false, which no code implements
+   any more; they document the two defects F4cap / F4iv and their exact
+   selectors, and keep the check able to report a regression -------------- *)
 
 (* F4cap: local queues, max_tracks = 1, three detections in the first frame:
    Exception; every matcher, window, reduction *)
@@ -345,7 +371,7 @@ Theorem c09x_completeness_refuted_all_nan : forall l r,
 Proof. exact all_nan_refuted_now. Qed.
 Print Assumptions c09x_completeness_refuted_all_nan.
 
-(* the strongest true statement on the tree as it is: valid names, F4 i-iii
+(* the strongest true statement on the historic tree: valid names, F4 i-iii
    repaired, ANY max_tracks, every history: if neither selector fires —
    `finite_step` = not every cell of a non-empty matrix given to the Hungarian
    matcher is NaN [F4iv], `cap_silent` = no call needs an id > max_tracks
@@ -359,7 +385,7 @@ Theorem c09x_complete_no_raise_partial : forall X h,
 Proof. exact xcomplete_no_raise_partial. Qed.
 Print Assumptions c09x_complete_no_raise_partial.
 
-(* clause (b) on the tree as it is, for every max_tracks and history, with NO
+(* clause (b) on the historic tree, for every max_tracks and history, with NO
    selector hypothesis: every executed call either raises "Exceeding max
    tracks" or satisfies `tracks_ok` (current_tracks = [0..m) grows by fresh ids,
    returned tracks pairwise distinct current tracks) *)
@@ -370,7 +396,7 @@ Theorem c09x_distinct_tracks_fresh_ids : forall X h,
 Proof. exact xdistinct_tracks_asis. Qed.
 Print Assumptions c09x_distinct_tracks_fresh_ids.
 
-(* the two selectors are EXACT on the tree as it is (valid names, F4 i-iii
+(* the two selectors are EXACT on the historic tree (valid names, F4 i-iii
    repaired): a call raises "Exceeding max tracks" iff `sel_cap` fires, and —
    where it does not — the call is complete iff `sel_iv` does not fire (the
    matcher answered "no pair" although a detection is above the threshold) *)
@@ -402,13 +428,74 @@ Example ex_cap_reached_not_exceeded : forall g w r,
   = [Ok [(10, Some 0); (11, Some 1)]].
 Proof. exact wit_cap_off_by_one. Qed.
 
-(* --- both repairs applied: the full statement, no side hypothesis -------- *)
+(* --- CURRENT tree (all five repairs): the full statement ---------------- *)
 
+(* hypothesis at an executed call: if the matcher was consulted it returned an
+   answer and the answer is a one-to-one assignment inside the matrix — nothing
+   about optimality or greediness *)
+Lemma valid_ans_def : forall X x,
+  valid_ans X x =
+  (is_init (base X) (t_state x) = false ->
+   exists p, f_answer (t_frame x) = APairs p /\
+             matching (length (f_dets (t_frame x))) (length (cur (t_state x))) p).
+Proof. reflexivity. Qed.
+Print Assumptions valid_ans_def.
+
+(* ... and it is exactly the boolean `TrackerX.valid_ansb` that the harness
+   evaluates inside Coq on every recorded call (xstep_checks, index 10) *)
+Theorem c09x_valid_ans_is_checked : forall X st f o,
+  valid_ansb X st f = true <-> valid_ans X (st, f, o).
+Proof. exact valid_ansb_spec. Qed.
+Print Assumptions c09x_valid_ans_is_checked.
+
+(* OPERATIVE: every call returns and satisfies `xok` (fresh ids, |cur| <=
+   max_tracks, distinct tracks, every above-threshold detection returned, without
+   a track only if max_tracks tracks exist) for ANY matcher answering one-to-one
+   assignments *)
+Theorem c09x_repaired_full_any_matcher : forall X h, xrepaired X ->
+  Forall (valid_ans X) (xtrace X init h) ->
+  Forall (xok X) (xtrace X init h) /\ length (xrun X h) = length h.
+Proof. exact xrepaired_full_any_matcher. Qed.
+Print Assumptions c09x_repaired_full_any_matcher.
+
+(* corollary: under the matchers' contracts (optimal finite assignment / greedy run) *)
 Theorem c09x_repaired_full : forall X h, xrepaired X ->
   Forall (contract_step (base X)) (xtrace X init h) ->
   Forall (xok X) (xtrace X init h) /\ length (xrun X h) = length h.
-Proof. exact xrepaired_full. Qed.
+Proof. exact xrepaired_full_contract. Qed.
 Print Assumptions c09x_repaired_full.
+
+Theorem c09x_repaired_full_any_matcher_no_cap : forall X h, xrepaired X -> cap_of X = None ->
+  Forall (valid_ans X) (xtrace X init h) ->
+  Forall ok_complete (xtrace X init h) /\ length (xrun X h) = length h.
+Proof. exact xrepaired_full_any_matcher_nocap. Qed.
+Print Assumptions c09x_repaired_full_any_matcher_no_cap.
+
+(* "exactly once" as one statement: (a) + (c) *)
+Theorem c09x_repaired_exactly_once : forall X h x, xrepaired X ->
+  Forall (valid_ans X) (xtrace X init h) -> In x (xtrace X init h) ->
+  NoDup (uids (f_dets (t_frame x))) ->
+  exists out, t_out x = Ok out /\
+    forall u, In (u, true) (f_dets (t_frame x)) -> count_occ Nat.eq_dec (uids_of out) u = 1.
+Proof. exact xrepaired_exactly_once. Qed.
+Print Assumptions c09x_repaired_exactly_once.
+
+(* non-vacuity on calls where the matcher returns pairs: greedy, local queues,
+   max_tracks 2 binding (a third animal stays track-less) ... *)
+Example ex_rep_hyp_greedy_cap :
+  let X := x_rep (cfg_rep true true 3 false) (Some 2) in
+  xrun X wit_third_appears
+    = [Ok [(10, Some 0); (11, Some 1)]; Ok [(20, Some 0); (21, Some 1); (22, None)]] /\
+  Forall (contract_step (base X)) (xtrace X init wit_third_appears) /\
+  Forall (valid_ans X) (xtrace X init wit_third_appears).
+Proof. exact (conj ex_greedy_cap_run (conj ex_greedy_cap_contract ex_greedy_cap_valid)). Qed.
+
+(* ... and the repaired Hungarian contract, both candidate methods *)
+Example ex_rep_hyp_hungarian : forall l,
+  let X := x_rep (cfg_rep l false 3 false) None in
+  xrun X wit_one_animal = [Ok [(10, Some 0)]; Ok [(20, Some 0)]; Ok [(30, Some 0)]] /\
+  Forall (contract_step (base X)) (xtrace X init wit_one_animal).
+Proof. exact ex_hungarian_rep_contract. Qed.
 
 Theorem c09x_repaired_full_no_cap : forall X h, xrepaired X -> cap_of X = None ->
   Forall (contract_step (base X)) (xtrace X init h) ->
@@ -423,6 +510,65 @@ Proof. exact wit_cap_rep. Qed.
 Example ex_all_nan_repaired : forall l r,
   xrun (x_rep (cfg_rep l false 3 r) None) wit_all_nan = [Ok [(10, Some 0)]; Ok [(20, Some 1)]].
 Proof. exact wit_all_nan_rep. Qed.
+
+(* --- round 1's model `Tracker.step` against the CURRENT configuration ----- *)
+
+(* the branch afd312c added to update_tracks (no pair although a detection is
+   above the threshold), and room under the cap, as predicates on a call *)
+Lemma iv_branch_def : forall X st f,
+  iv_branch X st f =
+  (fix_iv X && negb (is_init (base X) st) &&
+   negb (scores_raise (base X) st (length (f_dets f))) &&
+   match f_answer f with
+   | APairs p => negb (guard (base X) p) && existsb snd (f_dets f)
+   | AFail => false
+   end).
+Proof. reflexivity. Qed.
+Print Assumptions iv_branch_def.
+
+Lemma cap_room_def : forall X x,
+  cap_room X x =
+  (forall K, cap_of X = Some K ->
+     length (cur (t_state x)) + need X (t_state x) (t_frame x) <= K).
+Proof. reflexivity. Qed.
+Print Assumptions cap_room_def.
+
+(* for ANY fix_cap / fix_iv: one call of the widened tracker IS one call of
+   round 1's model unless afd312c's branch is taken or the cap is in the way *)
+Theorem c09x_step_conservative_any_fix : forall X st f m,
+  names_ok X = true -> cur st = seq 0 m ->
+  (forall K, cap_of X = Some K -> m + need X st f <= K) ->
+  iv_branch X st f = false ->
+  xstep X st f = step (base X) st f.
+Proof. exact xstep_room. Qed.
+Print Assumptions c09x_step_conservative_any_fix.
+
+(* hence round 1's theorems (about `trace (base X)`), under their own hypotheses
+   contract + `finite_step`, speak about the widened tracker in every
+   configuration with valid names and room under the cap — incl. `x_rep` *)
+Theorem c09x_round1_carries_over : forall X h, names_ok X = true -> fix_i (base X) = true ->
+  Forall (contract_step (base X)) (trace (base X) init h) ->
+  Forall (finite_step (base X)) (trace (base X) init h) ->
+  Forall (cap_room X) (trace (base X) init h) ->
+  xtrace X init h = trace (base X) init h /\ xrun X h = run (base X) h.
+Proof. exact round1_carries_over. Qed.
+Print Assumptions c09x_round1_carries_over.
+
+Theorem c09x_round1_complete_current : forall cfg mt h, repaired cfg -> cap_of (x_rep cfg mt) = None ->
+  Forall (contract_step cfg) (trace cfg init h) ->
+  Forall (finite_step cfg) (trace cfg init h) ->
+  xrun (x_rep cfg mt) h = run cfg h /\
+  Forall ok_complete (xtrace (x_rep cfg mt) init h) /\ length (xrun (x_rep cfg mt) h) = length h.
+Proof. exact round1_complete_current. Qed.
+Print Assumptions c09x_round1_complete_current.
+
+(* the hypothesis is needed: on the all-NaN witness afd312c's branch is taken and
+   the two models differ (round 1's drops the detection, the current code does not) *)
+Example ex_iv_branch_differs : forall l r,
+  let X := x_rep (cfg_rep l false 3 r) None in
+  exists x, In x (xtrace X init wit_all_nan) /\ iv_branch X (t_state x) (t_frame x) = true /\
+            xrun X wit_all_nan <> run (base X) wit_all_nan.
+Proof. exact ex_iv_branch_taken. Qed.
 
 (* --- names that are no key of the tracker's tables: ValueError ---------- *)
 
